@@ -158,7 +158,11 @@ Plan sloppy_generate(uint64_t base, const std::string &prop, uint64_t index, int
         p.doc = gen_document(rd, tier, p.root, &tree, valid, p.faults, &need);
         collect_names(tree, names);
         p.note = tree_text(tree);
+        Bytes pristine = p.doc;
         if (cls >= 50) apply_faults(rf, p.doc, 1 + (int)rf.below(3), p.faults, nullptr);
+        // the stored message may be repaired (or damaged) in place between two calls: doc2 is the other version, same length
+        if (p.doc.size() == pristine.size() && p.doc != pristine) p.doc2 = pristine;
+        else if (rf.chance(1, 3)) { p.doc2 = pristine; Rng r2 = rf.fork("damage"); std::vector<std::string> f2; Bytes d = pristine; apply_faults(r2, d, 1, f2, nullptr); if (d.size() == pristine.size()) p.doc2 = d; else p.doc2.clear(); }
     }
     unsigned dm = (unsigned)rd.below(100);
     if (dm < 15) p.max_depth = 1; else if (dm < 25) p.max_depth = 2; else if (dm < 55) p.max_depth = std::max(1, std::min(255, need + (int)rd.below(3) - 1));
@@ -176,6 +180,21 @@ Plan sloppy_generate(uint64_t base, const std::string &prop, uint64_t index, int
     // most callers at least try to enter the root
     if (ro.chance(4, 5)) p.ops.push_back(mk(p.root ? P_ENTER_ARR : P_ENTER_OBJ));
     gen_sloppy_ops(ro, p.ops, 1 + (int)ro.below(60), names, p.doc.size(), p.root, true);
+    if (!p.doc2.empty()) {
+        // F4/F7: rewrite in place at 1-2 random points, usually followed by the restart a careful application would do
+        int n = 1 + (int)ro.below(2);
+        for (int i = 0; i < n; i++) {
+            size_t at = 1 + ro.below(p.ops.size());
+            std::vector<Op> ins; ins.push_back(mk(H_REWRITE, i % 2));
+            unsigned m = (unsigned)ro.below(10);
+            // an application that changes the stored bytes restarts the parser before it goes on (no promise is made for a
+            // traversal that continues over bytes that changed under it)
+            if (m < 4) ins.push_back(mk(P_RESET)); else if (m < 7) ins.push_back(mk(P_VERIFY)); else if (m < 8) ins.push_back(mk(P_TO_STRING_NULL)); else if (m < 9) ins.push_back(mk(P_PRINT)); else ins.push_back(mk(P_RESET));
+            if (ro.chance(2, 3)) ins.push_back(mk(p.root ? P_ENTER_ARR : P_ENTER_OBJ));
+            p.ops.insert(p.ops.begin() + (long)at, ins.begin(), ins.end());
+        }
+        p.faults.push_back("F4:rewrite_in_place");
+    }
     p.faults.push_back("F8:faulty_caller");
     if (prop != "C16" && ro.chance(1, 5)) p.par["nocb"] = 1;      // an application without a token callback
     if (prop == "C16" && ro.chance(1, 2)) p.par["unguarded"] = 1;   // termination is promised for ANY call sequence, also lookups issued outside an object
@@ -195,6 +214,7 @@ Result sloppy_execute(const Plan &p, const ExecCtx &c) {
     bool other_error = false;
     for (auto &op : p.ops) {
         if (ps.dead) break;
+        if (op.code == H_REWRITE) { if (ps.inited && !p.doc2.empty()) ps.rewrite((op.a & 1) ? p.doc : p.doc2); continue; }     // a = 0: the other version, 1: back to the delivered one
         Outcome o = ps.call(op);
         if (o.skipped) continue;
         if (o.ret && op.code != P_DEPTH && !(op.code >= P_GET_TYPE && op.code <= P_GET_TYPE)) trues++;
